@@ -60,6 +60,7 @@ type Engine struct {
 
 type partition struct {
 	key       string
+	seq       int64 // per-partition arrival number: a match's rows are consecutive in ITS partition
 	runs      []*run
 	pending   map[int64][]*run // 贪婪：已完成 run 按 startSeq 暂存，等延伸终止选最长 emit
 	matchNo   int              // 本分区已输出匹配数（MATCH_NUMBER）
@@ -341,9 +342,14 @@ func (e *Engine) Process(row map[string]any, partitionKey string) []map[string]a
 	e.mu.Lock()
 	defer e.mu.Unlock()
 	e.seq++
-	mrSeq := e.seq
 
+	// SKIP bookkeeping (startSeq + nrows - 1 = last row) assumes a match's rows
+	// carry consecutive numbers; that only holds per partition. With one global
+	// counter, interleaved partitions made SKIP PAST LAST ROW resume inside the
+	// previous match.
 	p := e.getPartition(partitionKey)
+	p.seq++
+	mrSeq := p.seq
 	emitted := e.step(p, row, ts, mrSeq)
 	e.evictIfNeeded()
 	return emitted
